@@ -330,7 +330,11 @@ class StringNode(ElementaryNode[str]):
         self.raw_value = token.value
 
         if escape and not self.is_multiline:
-            self.value = self.escape()
+            try:
+                self.value = self.escape()
+            except UnicodeDecodeError as e:
+                # \\N{no such name}, \\U beyond the Unicode range
+                raise ParseException(f'Invalid escape sequence in string: {e.reason}', '', token.lineno, token.colno)
 
     def escape(self) -> str:
         return ESCAPE_SEQUENCE_SINGLE_RE.sub(decode_match, self.raw_value)
